@@ -13,12 +13,14 @@ def mc_runs(quick):
 
 
 def scen(quick):
-    return ["--commands", 120 if quick else 1500, "--len", 14]
+    return ["--commands", 120 if quick else 1500, "--len", 14, "--emudeck", 10 if quick else 30]
 
 
 def rule(quick, shards):
     return (f"{shards} shards x {120 if quick else 1500} histories of 14 steps over play / stop / rewind / let time pass (0..40 T, a few pulses, "
-            "thousands of pilot pulses, seconds - i.e. mid-pilot, mid-sync, mid-byte, in the pause, after the end), then the tape runs out")
+            "thousands of pilot pulses, seconds - i.e. mid-pilot, mid-sync, mid-byte, in the pause, after the end), then the tape runs out; "
+            f"plus {10 if quick else 30} decks driven through the emulator's own play_tape / stop_tape / rewind_tape on a running machine: a few commands "
+            "in the first pass, the automatic stop, silence, PLAY again and the whole tape a second time")
 
 
 def selftest(pid, trace, seed):
